@@ -8,7 +8,7 @@ from typing import Dict, List, Optional, Set, Tuple
 from ..core import astutil as A
 from ..core.index import AnalysisError, FuncInfo
 from ..selftest import M
-from .common import conjuncts, may_conds, BASE_ICOMPILER, T, attr_stores, calls_named, conds, every_origin, facts, need, subscript_stores, where
+from .common import atoms_of, conjuncts, may_conds, BASE_ICOMPILER, T, attr_stores, calls_named, conds, every_origin, facts, need, subscript_stores, where
 
 KERN1 = "ufo2ft.featureWriters.kernFeatureWriter"
 KERN2 = "ufo2ft.featureWriters.kernFeatureWriter2"
@@ -153,7 +153,7 @@ def r101(prog, chk):
 
 
 # ----------------------------------------------------------------------------- R10.2
-def r102(prog, chk):
+def r102(prog, chk, rule="R10.2"):
     ix = prog.ix
     ga = ix.get_method(BASEW, "_getAnchor", own=True)
     loops = _source_loops(prog, ga)
@@ -161,7 +161,7 @@ def r102(prog, chk):
     lp = loops[0]
     sv = A.target_names(lp.target)[0]
     fs = facts(prog, ga, lp)
-    chk.ob("R10.2", f"{ga.short}|source loop runs for variable fonts", any(o == "truthy" and l.endswith("isVariable") for o, l, r in fs), where(ga, lp), detail="if self.context.isVariable", nontrivial=False,
+    chk.ob(rule, f"{ga.short}|source loop runs for variable fonts", any(o == "truthy" and l.endswith("isVariable") for o, l, r in fs), where(ga, lp), detail="if self.context.isVariable", nontrivial=False,
            message=f"{ga.short}: the per-source loop is not the variable branch")
     lay = [s for s in ast.walk(lp) if isinstance(s, ast.Assign) and isinstance(s.targets[0], ast.Name) and (T(s.value) == f"{sv}.font" or T(s.value) == f"{sv}.font.layers[{sv}.layerName]")]
     ok = len(lay) == 2 and len({s.targets[0].id for s in lay}) == 1
@@ -172,24 +172,37 @@ def r102(prog, chk):
                 ok = ok and any(o == "is" and l == f"{sv}.layerName" and r == "None" for o, l, r in f_)
             else:
                 ok = ok and any(o == "isnot" and l == f"{sv}.layerName" and r == "None" for o, l, r in f_)
-    chk.ob("R10.2", f"{ga.short}|layer = source.font, or its named layer for sparse sources", ok, where(ga, lp), detail="layer = source.font if source.layerName is None else source.font.layers[source.layerName]",
+    chk.ob(rule, f"{ga.short}|layer = source.font, or its named layer for sparse sources", ok, where(ga, lp), detail="layer = source.font if source.layerName is None else source.font.layers[source.layerName]",
            message=f"{ga.short}: anchors of a sparse source are not read from its own layer (or full sources from the default layer)")
     conts = [s for s in _direct_stmts(lp) if isinstance(s, ast.Continue)]
     layer = lay[0].targets[0].id if lay else "?"
     ok = len(conts) == 1 and isinstance(ix.parent(conts[0]), ast.If) and isinstance(ix.parent(conts[0]).test, ast.Compare) and isinstance(ix.parent(conts[0]).test.ops[0], ast.NotIn) \
         and T(ix.parent(conts[0]).test.comparators[0]) == layer
-    chk.ob("R10.2", f"{ga.short}|only layers without the glyph are skipped", ok, where(ga, lp), detail=f"if glyphName not in {layer}: continue",
+    chk.ob(rule, f"{ga.short}|only layers without the glyph are skipped", ok, where(ga, lp), detail=f"if glyphName not in {layer}: continue",
            message=f"{ga.short}: a source that has the glyph can be skipped (no anchor value at its location)")
     adds = [c for c in calls_named(ga, "add_value")]
     breaks = [s for s in ast.walk(lp) if isinstance(s, (ast.Break, ast.Return))]
-    chk.ob("R10.2", f"{ga.short}|both coordinates recorded for every source, no early exit", len(adds) == 2 and not breaks and len({T(c.func.value) for c in adds}) == 2, where(ga, lp), detail="x_value.add_value / y_value.add_value",
-           message=f"{ga.short}: the source loop can stop early or records only one coordinate")
+    # the two values are recorded inside the source loop, for the anchor of the requested name, under no other condition
+    in_loop = all(any(a is lp for a in ix.ancestors(c)) for c in adds)
+    extra = []
+    for c in adds:
+        for g in conds(prog, ga, c):
+            if g.polarity not in (True, False) or not any(a is lp for a in ix.ancestors(g.loc)):
+                continue
+            ats = atoms_of(g.test, g.polarity)
+            okg = any((o == "eq" and (l.endswith(".name") or r.endswith(".name"))) or (o == "in" and r == layer) for o, l, r in ats)
+            if not okg:
+                extra.append(T(g.test, 50))
+    chk.ob(rule, f"{ga.short}|both coordinates recorded for every source, no early exit", len(adds) == 2 and not breaks and len({T(c.func.value) for c in adds}) == 2 and in_loop and not extra, where(ga, lp),
+           detail="x_value.add_value / y_value.add_value under `anchor.name == anchorName` only",
+           message=f"{ga.short}: the source loop can stop early, records only one coordinate, or leaves a source that has the anchor out of the variable scalar "
+                   f"({'values are added outside the source loop' if not in_loop else extra[:2]}): at that master's location the anchor is interpolated from the other masters instead of being the master's own")
     glyph_from_layer = [s for s in ast.walk(lp) if isinstance(s, ast.Assign) and isinstance(s.value, ast.Subscript) and T(s.value.value) == layer]
     inner = [n for n in ast.walk(lp) if isinstance(n, ast.For) and n is not lp]
     ok = len(glyph_from_layer) == 1 and len(inner) == 1 and T(inner[0].iter) == f"{glyph_from_layer[0].targets[0].id}.anchors"
-    chk.ob("R10.2", f"{ga.short}|anchors are read from that layer's glyph", ok, where(ga, lp), detail=f"glyph = {layer}[glyphName]; for anchor in glyph.anchors",
+    chk.ob(rule, f"{ga.short}|anchors are read from that layer's glyph", ok, where(ga, lp), detail=f"glyph = {layer}[glyphName]; for anchor in glyph.anchors",
            message=f"{ga.short}: anchors are not read from the glyph of the current source layer")
-    chk.minimum("R10.2", 5)
+    chk.minimum(rule, 5)
 
 
 # ----------------------------------------------------------------------------- R10.3
@@ -458,6 +471,9 @@ def r1010(prog, chk):
 
 
 MUTANTS = [
+    M("sources whose anchor equals the default's are left out of the variable scalar (seeded C18l)", "ufo2ft/featureWriters/baseFeatureWriter.py", "BaseFeatureWriter._getAnchor",
+      "if anchor.name == anchorName:\n    location = get_userspace_location(designspace, source.location)\n    x_value.add_value(location, otRound(anchor.x))\n    y_value.add_value(location, otRound(anchor.y))\n    found = True",
+      "if anchor.name == anchorName and (source is designspace.findDefault() or (anchor.x, anchor.y) != (0, 0)):\n    location = get_userspace_location(designspace, source.location)\n    x_value.add_value(location, otRound(anchor.x))\n    y_value.add_value(location, otRound(anchor.y))\n    found = True", rule="R10.2"),
     M("sources only renamed when the name is both missing and taken (mutation scan 4, k=118)", "ufo2ft/util.py", "ensure_all_sources_have_names",
       "source.name is None or source.name in used_names", "source.name is None and source.name in used_names", rule="R10.10"),
     M("2x2 mismatch check skipped when the first master's components are all plain (seeded C10k)", "ufo2ft/preProcessor.py", "TTFInterpolatablePreProcessor.check_for_nonmatching_components",
